@@ -154,6 +154,9 @@ func fill(op specgen.ParamOp, defs J, r *oracle.Request, skip string) {
 	}
 }
 
+// Encode is the exported reference encoder for one parameter value.
+func Encode(p J, v any) ([]string, bool) { return encode(p, v) }
+
 // Cases generates the requests that exercise one parameter of an operation.
 func Cases(op specgen.ParamOp, target specgen.ParamAtom, defs J) []Case {
 	var out []Case
